@@ -154,16 +154,18 @@ static void history_case(int kind, uint32_t S, int content, int mode, int bs, in
 {
     char what[200], smp[240]; uint32_t len = 0, ann = 0; int r, oi = kind ? O_STRV : O_DOMB; uint16_t idx = kind ? 0x2023 : 0x2012;
     int db[1] = { 0 }, da[1] = { k0 }, dbs[1] = { 0 };
+    int noabort = pkk >= 100;          /* pkk >= 100: abandoned after pkk - 100 requests WITHOUT a client abort - the next initiate request simply replaces the open transfer */
+    cl_crc = (content >> 1) & 1; content &= 1;      /* content bit 1: the block initiate requests carry the cc bit */
     w_restore(snap0); w_obs_clear();
     set_object(kind, S, content);
-    cl_budget = pkk; cl_stopped = 0;
+    cl_budget = noabort ? pkk - 100 : pkk; cl_stopped = 0;
     if (pk == 1) (void)cl_seg_dl(0, 0x2011, 0, PAY2, 10, 1);
     else if (pk == 2) (void)cl_blk_dl(0, 0x2011, 0, PAY2, 10, 1, 0, 0);
     else if (pk == 3) (void)cl_upload(0, idx, 0, UP2, sizeof UP2, &len, &ann);
     else if (pk == 5) (void)cl_seg_dl(0, 0x2011, 0, PAY2, 5, 1);          /* an odd number of segments: the toggle bit the transfer leaves behind */
     else (void)cl_blk_ul(0, idx, 0, 3, UP2, sizeof UP2, &len, &ann, 0, 0, 0, 0);
     cl_budget = -1;
-    if (cl_stopped) cl_client_abort(0);
+    if (cl_stopped && !noabort) cl_client_abort(0);
     cl_stopped = 0;
     w_obs_clear();
     cl_trace = 0; cl_frames = 0; cl_abort = 0; len = ann = 0;
@@ -175,6 +177,7 @@ static void history_case(int kind, uint32_t S, int content, int mode, int bs, in
     (void)check_upload(r, oi, len, ann, what);
     if (OBS.fatal) mc_fail("safety:fatal-error callback invoked", "%s", what);
     snprintf(smp, sizeof smp, "%s -> %u bytes", what, len);
+    cl_crc = 0;
     mc_case_end(outcome(r, len) ^ ((uint64_t)pk << 52), 1, smp);
 }
 static void run_history(int tier)
@@ -193,6 +196,14 @@ static void run_history(int tier)
                 mc_case(9, 200, kind, (int)S, 1, 1, bsl[b], pk, pkk, k0);
                 history_case(kind, S, 1, 1, bsl[b], pk, pkk, k0);
             }
+            /* the earlier transfer is left open without an abort, and the block initiate requests carry the cc bit ("client supports CRC") */
+            if (pkk >= 1 && pkk <= 3 && pk != 2 && pk != 4) for (int crc = 0; crc < 2; crc++) {      /* segmented transfers only: a block transfer is ended by an abort, a stray initiate inside it may be refused */
+                mc_case(9, 200, kind, (int)S, 2 * crc, 0, 0, pk, 100 + pkk, -1);
+                history_case(kind, S, 2 * crc, 0, 0, pk, 100 + pkk, -1);
+                mc_case(9, 200, kind, (int)S, 2 * crc, 1, 3, pk, 100 + pkk, -1);
+                history_case(kind, S, 2 * crc, 1, 3, pk, 100 + pkk, -1);
+            }
+            if (pkk == -1) { mc_case(9, 200, kind, (int)S, 2, 1, 3, pk, pkk, -1); history_case(kind, S, 2, 1, 3, pk, pkk, -1); }
         }
     }
 }
